@@ -51,6 +51,10 @@ func runC07(c *harness.Ctx, idx int) {
 	c.Shape(fmt.Sprint(c.Seed, idx))
 	c.Tag(fmt.Sprintf("poison:%v", poison))
 	outB, errB, err, hung := runSub(fmt.Sprintf("c07|%d|%d|%v", c.Seed, idx, poison), nil, 10*time.Minute)
+	if hung && subStalled(errB) {
+		c.Violation("no-progress", "C07/child-blocked", "the sequence process blocked (no CPU time consumed for 150 s): %s", clipStr(string(errB), 3000))
+		return
+	}
 	if hung {
 		c.Inconclusive("sequence process exceeded the 10 min wall-clock limit: %s", clipStr(string(errB), 1500))
 		return
@@ -93,6 +97,7 @@ type c07Type struct {
 	dstF  reflect.Value // destination decoded into by frugal across calls
 	dstR  reflect.Value // the reference model's copy
 	fresh bool          // destinations need (re)creation
+	ptrOnly bool        // invalid argument kind: only passed as reflect.New(bad)
 	failedBefore bool
 }
 
@@ -166,6 +171,14 @@ func RunSubC07(spec string) {
 		// valid types sharing nested struct types with the invalid definition
 		pool = append(pool, &c07Type{name: "sibling-byvalue:" + ic.name, s: sib1, fresh: true}, &c07Type{name: "sibling-ptr:" + ic.name, s: sib2, fresh: true})
 	}
+	// arguments that are not (pointers to) structs although their element type is a pool type
+	// used through pointers all the time: **T must be refused whatever T's history is
+	for i := 0; i < 3; i++ {
+		t := pool[r.Intn(len(pool))]
+		if t.s != nil {
+			pool = append(pool, &c07Type{name: "invalid-arg:**" + t.name, bad: reflect.PtrTo(t.s.Go), ptrOnly: true})
+		}
+	}
 	for _, b := range []interface{}{zoo.BadTop{}, zoo.BadTop2{}, zoo.BadB{}, zoo.BadTop3{}, zoo.BadD{}} {
 		pool = append(pool, &c07Type{name: fmt.Sprintf("invalid:%T", b), bad: reflect.TypeOf(b)})
 	}
@@ -185,7 +198,7 @@ func RunSubC07(spec string) {
 		if t.s == nil {
 			e := []string{"encode", "decode", "size"}[r.Intn(3)]
 			res.OpCounts["invalid-"+e]++
-			if sig, msg := checkRejected(e, t.bad, r.Bool() && e != "decode"); sig != "" {
+			if sig, msg := checkRejected(e, t.bad, r.Bool() && e != "decode" && !t.ptrOnly); sig != "" {
 				viol("invalid/"+sig, "op %d on %s: %s", k, t.name, msg)
 			}
 			continue
